@@ -55,3 +55,34 @@ CLAIMS["C10"] = {
     "note": "Lean kernel; standard axioms; hand-written model of keys.py loaders tied by correspondence; b64decode may only fail with binascii.Error (parameter).",
     "technique": "Lean 4 proof over an executable model + model/implementation correspondence",
 }
+_M = "Lean 4 proof over an executable model + model/implementation correspondence"
+CLAIMS["C01"] = {
+    "text": "sign_then_verify and its entry-point variants (sign_number with explicit k or any randrange value, sign_digest, sign, sign_digest_deterministic with any number of RSZero retries, sign_deterministic), for every d, k in [1, n-1], every digest and matching truncation flags, for any encoder/decoder pair satisfying the Codec contract (instances for the six encoders from C12/C13 theorems): a returned signature verifies as True; also for the executable instance over the real point model and for every row of the generated 17-curve table (…_named). Algebra: u1 + u2 d = s^-1 (e + r d) = k (mod n), n G = 0. Tie: integer parts regenerated from ecdsa.py/keys.py + correspondence over 6 encoders x 5 entry points x 17 curves; search: sign->serialise/reload->verify on the real code.",
+    "note": "Lean kernel; standard axioms; hypotheses p, n prime (and #E = n for the cofactor-1 rows); order of G machine-checked per run on the generated table (Props/Named); hash functions and nonce sources are parameters; RFC 6979 termination assumed (theorems cover every returning run).",
+    "technique": _T,
+}
+CLAIMS["C14"] = {
+    "text": "recovered_contains_Q, recovered_length_le_two (unconditional), recovered_all_verify, recovered_structure (candidates are r^-1 (s(±kG) - eG) filtered by != infinity: covers the F9 and F10 situations), recovery_with_digest / recovery_with_data for both wrappers, any decoder and either truncation flag; also for the executable instance over the real point model incl. the square-root model (P-224's polynomial branch proved in C15). Tie: integer parts regenerated from ecdsa.py (the R2 = -y % p expression is pinned) + correspondence; search: honest signatures on toy cofactor-1 curves exhaustively and boundary cases on named curves, recovered keys compared as a set.",
+    "note": "Lean kernel; standard axioms; hypotheses: p, n prime, cofactor 1 stated as #E = n, nonce point with x < n (as the property says).",
+    "technique": _T,
+}
+CLAIMS["C05"] = {
+    "text": "Over every history of calls on the ECDH state machine (Model/Ecdh.lean): secret_only_if_agreed / secret_refusals_only (a value only if both keys are present and all three curves are the same object; NoKeyError / InvalidCurveError / NoCurveError exactly otherwise; a raising call leaves the object unchanged), remote_validated (a remote key loaded from bytes/DER/PEM satisfied C08's acceptance predicate), shared_secret_symmetric and both_parties_agree (both parties get x((dA dB) G) or both InvalidSharedSecretError), infinity_refused, secret_bytes (big-endian, left-padded to the byte length of p); GroupReading discharged for the real point model (Props/C05g). Tie: correspondence on random call histories over two ECDH objects incl. all loaders x encodings and boundary scalars; search: reference state machine + textbook arithmetic.",
+    "note": "Lean kernel; standard axioms; hypotheses p prime, n odd, nG = 0; K2 (SECP112r2 accepts points of order 2 and 2n) applies to remote_validated and is printed as KNOWN-FINDING; key constructors are parameters tied to Model/Keys by correspondence.",
+    "technique": _M,
+}
+CLAIMS["C11"] = {
+    "text": "For X in {length, integer, base-128 number, OID, octet string, bit string (all three calling conventions), sequence, constructed}: decode_encode_X (round trip on the encoder's explicit domain), decode_canonical_X (accepted => input = encoder(v) ++ rest: exact suffix, declared length never exceeds the bytes present, unique accepted encoding), decode_error_X (only UnexpectedDER), unique_X, reject_noncanonical_X; all byte strings, no size bound except the encoder's own domain (contents < 256^127 bytes, shown sharp). Tie: every integer test/expression of der.py regenerated (Generated/DerGuards.lean) and proved equal to the model's, control skeleton of each function re-extracted and compared, correspondence exhaustive over all inputs <= 5 bytes on per-reader alphabets + structured long forms; search: independent strict DER reader + 're-encoding reproduces the bytes consumed'.",
+    "note": "Lean kernel (core Lean only, no Mathlib); standard axioms; CPython slicing/hexlify/int2byte semantics are modelled (struct.error of int2byte reproduced).",
+    "technique": _T,
+}
+CLAIMS["C12"] = {
+    "text": "orderlen_spec (least l with n < 256^l), number_to_string_fixedlen, string_number_inverse / number_string_inverse (length-exact), sigdecode_sigencode_{string,strings,der} for all r, s in [0, n-1] and every n >= 2, sigdecode_{string,strings}_unique, sigdecode_*_errors (wrong length/count -> MalformedSignature only; DER: anything but the canonical two-INTEGER SEQUENCE without trailing bytes -> UnexpectedDER only), sigdecode_der_canonical. Tie: generated guards (Generated/UtilGuards.lean) + skeleton comparison + correspondence on 17 orders and odd-sized orders, boundary r, s, all lengths 0..2l+2, malformed DER stream; search: one accepted encoding per (r, s).",
+    "note": "Lean kernel (core Lean only); standard axioms; the DER round trip carries n <= 256^126 (beyond that the real encoder itself stops being invertible).",
+    "technique": _T,
+}
+CLAIMS["C18"] = {
+    "text": "inv_all_schedules / linearizable: for ANY number of threads running any list of the modelled PointJacobi operations on shared objects under ANY schedule, every value ever stored in the coordinate cell is the initial or the canonical scaled triple and the table cell is [] or the complete table (never a partial update), and every completed operation returns its sequential value with no interleaving-induced exception; op_safe_<m> per method; skeleton_matches: each method's load/store sequence of __coords/__precompute regenerated from ellipticcurve.py equals the model program's (by rfl) - a source change that reads the tuple twice or writes in two steps breaks it. Tie: translator (Generated/Access.lean) + controlled REAL threads (sys.monitoring at the attribute loads/stores of shared objects) enumerating all interleavings of 2 threads x all pairs of 16 operations x {plain, generator, table built}, each replayed on the model step by step; search: result in the set of sequential results, cells always allowed.",
+    "note": "Partial: atomicity of a single attribute load/store and of tuple construction under the GIL is assumed (the model cannot exhibit a torn reference); ObjOK (scaling preserves the value, table of c0 = table of scaled) are C06/C07-level facts kept as explicit hypotheses; mul_add and key-level verify are enumerated on the real code only, not modelled as programs.",
+    "technique": _T + " (schedules enumerated on real threads)",
+}
